@@ -144,10 +144,25 @@ package webp
 //@ pure func padLen(n int) int = n + (n & 1)
 //@ pure func chunkLen(n int) int = n > 0 ? 8 + n + (n & 1) : 0
 //
-// writeRIFFExtended itself carries no contract: it assembles the file in one
-// buffer at symbolic running offsets, and its obligations do not discharge in
-// time on any installed solver (see DESIGN.md, limits). The mux package's
-// assembleExtended, which writes the same layout, is under contract.
+// writeRIFFExtended assembles the file in one buffer at symbolic running
+// offsets, and its layout and run-time safety obligations do not discharge in
+// time on any installed solver (see DESIGN.md, limits): only the VP8X flags
+// it computes are proved here (`nosafety`: the body's index/slice obligations
+// are assumed). ICC 0x20, ALPHA 0x10, EXIF 0x08, XMP 0x04 announce exactly the
+// blobs present; for a VP8L payload without separate alpha data the ALPHA
+// flag is the alpha_is_used bit of the VP8L header (bit 28 of the 32 bits
+// after the signature byte = bit 4 of byte 4). The mux package's
+// assembleExtended, which writes the same layout chunk by chunk, is under a
+// full contract.
+//@ func writeRIFFExtended
+//@   property C02 C15
+//@   nosafety
+//@   requires w != nil
+//@   modifies *
+//@   ensures (flags & 0x20 != 0 <==> len(icc) > 0) && (flags & 0x08 != 0 <==> len(exif) > 0) && (flags & 0x04 != 0 <==> len(xmp) > 0) && flags & 0xffffffc3 == 0
+//@   ensures len(alphaData) > 0 ==> flags & 0x10 != 0
+//@   ensures len(alphaData) == 0 && fourcc != container.FourCCVP8L ==> flags & 0x10 == 0
+//@   ensures len(alphaData) == 0 && fourcc == container.FourCCVP8L && len(bitstreamData) >= 5 && old(bitstreamData[0]) == 0x2f ==> (flags & 0x10 != 0 <==> old(bitstreamData[4]) & 0x10 != 0)
 //
 //@ func writeRIFFSimple
 //@   property C02
